@@ -10,7 +10,7 @@ SPEC = {
                  'runs (z3, per path); module-state monitor over all mutable objects reachable from the globals and classes of ampycloud.*',
     'bounds': {'quick': 'two chunks of one hit each on different ceilometers, per-call dictionaries with keys of depth 1 and 3, all 70 '
                         'interleavings of the 4+4 stage calls',
-               'thorough': 'as quick plus chunks of 2 hits for 2 schedules'},
+               'thorough': 'as quick plus chunks of 2 hits for one schedule (A B A B A B A B)'},
     'outside': 'CPython thread pre-emption inside a stage and anything inside the C extensions under threads: there is no symbolic scheduler '
                'for Python threads here (this family of technique does not handle concurrency); three chunks',
     'budget_s': {'quick': 1200, 'thorough': 3600},
@@ -91,7 +91,7 @@ def h_interleave(E, n, sched):
 
 HARNESSES = [
     H('H-interleave', h_interleave, quick=[(1, s) for s in range(len(SCHEDULES))],
-      thorough=[(1, s) for s in range(len(SCHEDULES))] + [(2, s) for s in (17, 52)], float_model='R',
+      thorough=[(1, s) for s in range(len(SCHEDULES))] + [(2, 17)], float_model='R',
       cover=['ran'], scripted=True,
       assumptions=['utils.check_data_consistency replaced by a stand-in on the accepted tables (C15)'],
       doc='every interleaving of the stage calls of two chunks: each chunk ends exactly as when processed alone; module state untouched'),
